@@ -93,10 +93,12 @@ Definition mismatches_enc2 := mismatches ok_enc2.
 (* ------------------------------------------------------------------ decoder cases *)
 Inductive dkind :=
 | KRecord | KRecords (n : Z) | KBatch | KMset | KTop
-| KControl (value : list Z) | KRespHeader (version : Z) | KReqHeader (hv : option Z).
+| KControl (value : list Z) | KRespHeader (version : Z) | KReqHeader (hv : option Z)
+| KReceive (version expect_corr : Z).   (* Broker.responseReceiver on a frame header; offsets are not observable *)
 Inductive dres :=
 | DRecord (r : record) | DRecordsL (rs : list record) | DBatch (b : batch) | DMset (s : mset) | DTop (r : records)
-| DControl (c : control_record) | DResp (length corr : Z) | DReq (key version corr : Z) (client_id : list Z).
+| DControl (c : control_record) | DResp (length corr : Z) | DReq (key version corr : Z) (client_id : list Z)
+| DAccepted.
 
 Definition dres_eqb (a b : dres) : bool :=
   match a, b with
@@ -108,6 +110,7 @@ Definition dres_eqb (a b : dres) : bool :=
   | DControl x, DControl y => control_eqb x y
   | DResp l1 c1, DResp l2 c2 => (l1 =? l2) && (c1 =? c2)
   | DReq k1 v1 c1 i1, DReq k2 v2 c2 i2 => (k1 =? k2) && (v1 =? v2) && (c1 =? c2) && lz_eqb i1 i2
+  | DAccepted, DAccepted => true
   | _, _ => false
   end.
 
@@ -123,7 +126,9 @@ Definition run_kind (t : tbl) (k : dkind) (d : dec) : res dres :=
   | KControl value => rmap DControl (fst (control_decode d (new_dec value)))
   | KRespHeader v => rmap (fun p => DResp (fst p) (snd p)) (response_header_decode v d)
   | KReqHeader hv => rmap (fun p => let '(k, v, c, i) := p in DReq k v c i) (request_header_decode (fun _ _ => hv) d)
+  | KReceive v c => rmap (fun _ => DAccepted) (response_receive v c d)
   end.
+Definition off_observable (k : dkind) : bool := match k with KReceive _ _ => false | _ => true end.
 
 Record dcase2 := {
   d2_kind : dkind; d2_buf : list Z; d2_start : Z; d2_tab : tbl;
@@ -133,8 +138,8 @@ Record dcase2 := {
 
 Definition ok_dec2 (c : dcase2) : bool :=
   match run_kind (d2_tab c) (d2_kind c) (mkDec (d2_buf c) (d2_start c) 0 []) with
-  | Ok v d => (d2_status c =? 0) && (off d =? d2_off c) && option_eqb dres_eqb (Some v) (d2_val c)
-  | Err e d => (d2_status c =? err_id e) && (off d =? d2_off c)
+  | Ok v d => (d2_status c =? 0) && (negb (off_observable (d2_kind c)) || (off d =? d2_off c)) && option_eqb dres_eqb (Some v) (d2_val c)
+  | Err e d => (d2_status c =? err_id e) && (negb (off_observable (d2_kind c)) || (off d =? d2_off c))
   | Panic _ => d2_status c =? 100
   | Alloc _ => d2_status c =? 101
   end.
